@@ -11,6 +11,7 @@ mod cli;
 mod dbg;
 mod edit;
 mod enc;
+mod flag;
 mod cmd;
 mod prng;
 mod progs;
@@ -108,6 +109,7 @@ fn main() {
         "C05" => asm::run(&o),
         "C19" => asm::run_seq(&o),
         "C01" | "C04" => enc::run(&o),
+        "C18" => flag::run(&o),
         other => {
             eprintln!("unknown property {other}");
             std::process::exit(2);
